@@ -81,24 +81,33 @@ class TokenParser(object):
         return token
 
     def _parse_quoted_string(self):  # type: () -> str
+        # Quoted strings nested in this one are kept with their quotes.
+        # The enclosing strings wait on a stack: only the input bounds the depth.
+        enclosing = []
         string = ""
         delimiter = self._current
 
         # Skip first delimiter
         self._next()
-        while self._is_valid():
-            if self._current == delimiter:
-                # Skip last delimiter
-                self._next()
+        while True:
+            if not self._is_valid() or self._current == delimiter:
+                if self._is_valid():
+                    # Skip last delimiter
+                    self._next()
 
-                break
+                if not enclosing:
+                    break
 
-            if self._current == "\\":
+                nested = "{0}{1}{0}".format(delimiter, string)
+                delimiter, string = enclosing.pop()
+                string += nested
+            elif self._current == "\\":
                 string += self._parse_escape_sequence()
-            elif self._current == '"':
-                string += '"{}"'.format(self._parse_quoted_string())
-            elif self._current == "'":
-                string += "'{}'".format(self._parse_quoted_string())
+            elif self._current in ['"', "'"]:
+                enclosing.append((delimiter, string))
+                string = ""
+                delimiter = self._current
+                self._next()
             else:
                 string += self._current
                 self._next()
